@@ -37,6 +37,15 @@ PROPS = {
                     'tie = fact tables + lock-step on the real ResourceManager inside the real Environment.',
         assumptions=['callbacks do not raise (a raising callback leaves its entry in the list: outside the well-posed class)',
                      'registration numbers and logged pools are ghost fields of the model']),
+    'C12': dict(
+        vfile='Props/C12.v', ties=['Tie/TieEnv.v', 'Tie/TieMaint.v'],
+        families=[('maint', 1500, 40000, 'small', 'large')],
+        rule='F_maint scenarios: capacities incl. 0 and infinity, needed capacities incl. 0 and above the total, durations incl. 0, duplicates, '
+             'same-instant bursts, requests issued from start/end hooks; non-trivial = at least two orders started and an order had to wait; distinct by scenario text',
+        explanation='Maintainer invariant + scan/creation/start/finish specifications for every request stream; system invariant (one live event per order in progress) '
+                    'preserved by every executed event for every hook behaviour; tie = fact tables + lock-step on the real Maintainer in the real Environment.',
+        assumptions=['needed capacities and durations are non-negative', 'hooks reach the maintainer only through create_work_order',
+                     'try_working_requests modelled as one left-to-right pass (nothing is appended during the loop); checked by the lock-step']),
 }
 
 LEVELS = {
@@ -64,9 +73,15 @@ LEVELS = {
              'invariant preserved by every event/external call, so no feasible request waits when the clock advances.',
         design_ref='DESIGN.md section 8, C10', technique='Coq proof (loop invariants of the scan + system invariant over the event queue) + lock-step correspondence',
         note='Trusted: Coq kernel, pyfacts.py, extraction + OCaml driver, Python harness. Callback bodies range over all scripted operation lists.'),
+    'C12': dict(
+        text='Machine-checked Coq theorems: create_work_order returns exactly non-duplication; the scan starts orders in request order skipping only unfit/busy ones; '
+             'capacity in use = sum of orders in progress <= capacity; one order per target; nothing startable is left waiting after any operation; '
+             'cost once, FINISH_WORK at start+duration, hooks once per event; system invariant: exactly one live event per order in progress.',
+        design_ref='DESIGN.md section 8, C12', technique='Coq proof (state-machine invariant + system invariant over the event queue) + lock-step correspondence with Maintainer',
+        note='Trusted: Coq kernel, pyfacts.py, extraction + OCaml driver, Python harness.'),
 }
 
 NOT_APPLICABLE = [
     dict(property_id=p, reason='check under construction in this round (model layer not yet built); see DESIGN.md section 12 build order')
-    for p in ['C02', 'C03', 'C04', 'C05', 'C06', 'C08', 'C11', 'C12', 'C13', 'C14', 'C15', 'C16', 'C17', 'C18', 'C19', 'C20']
+    for p in ['C02', 'C03', 'C04', 'C05', 'C06', 'C08', 'C11', 'C13', 'C14', 'C15', 'C16', 'C17', 'C18', 'C19', 'C20']
 ]
